@@ -260,7 +260,9 @@ def one_run(pa, c, d, cfg, samplers, sampler=None):
     np.random.seed(cfg["seed"])
     REC[0] = rec
     try:
-        res = c.compute_gamma(d, n_samples=cfg["n"], precision_level=cfg["precision"], ground_truth_annotators=cfg["gt"],
+        # C06: the ground-truth annotators may be given as a plain set, whose iteration order follows the process hash seed
+        gt_arg = set(cfg["gt"]) if (cfg["gt"] and cfg.get("gt_form") == "set") else cfg["gt"]
+        res = c.compute_gamma(d, n_samples=cfg["n"], precision_level=cfg["precision"], ground_truth_annotators=gt_arg,
                               sampler=sampler, fast=cfg["mode"] == "fast", soft=cfg["mode"] == "soft")
     except Exception as ex:
         REC[0] = None
@@ -538,6 +540,8 @@ def run_c06(tier, rep, pa):
         cfg.update(alpha=getattr(d, "alpha", 1), beta=getattr(d, "beta", 1), de=float(d.delta_empty))
         if cfg["precision"] in ("medium", 0.05):
             cfg["precision"] = 0.3
+        if cfg["gt"]:
+            cfg["gt_form"] = "set"        # same set, other hash seed => other iteration order: the result must not follow it
         configs.append(cfg)
     cpath = scratch() / "c06-configs.json"
     cpath.write_text(json.dumps(configs))
